@@ -194,7 +194,9 @@ Print Assumptions half_set_cell_witnesses.
         Trajectory._savers / save_* by MD.Gen.CellFormats on every run).  For every format that has a place for a cell:
         if the writer accepts the trajectory, the loaded one has a complete per-frame cell exactly when the saved one
         had; the writers refuse exactly in the two documented situations; the formats without a place for a cell
-        (.xyz, .xyz.gz, .lh5) drop it *)
+        (.xyz, .xyz.gz, .lh5) drop it.  [roundtrip] has no argument for the save options (force_overwrite, header, ter,
+        bfactors, precision, mode): none of them may change the outcome; MD.Gen.CellFormats.saver_options_known pins that
+        list against the save_* signatures and the runs switch each option away from its default *)
 Theorem save_load_have_cell_iff : forall k have rect h,
   k <> NoCell -> roundtrip k have rect = Some h -> h = have.
 Proof. exact roundtrip_iff. Qed.
